@@ -586,6 +586,10 @@ class Run:
             cb = S.CertBlockV1(build_number=p["build"])
             kdir = os.path.join(GOLDEN, "keys")
             self.supplied_roots = []
+            if p.get("attach_early") and p["version"] == "2.1":
+                # the (still empty) certificate block is attached first and filled afterwards: the file is made at export
+                img.cert_block = cb
+                self.probe("cert_block_attached_before_it_was_filled")
             if key["kind"] == "self":
                 cert = S.Certificate.load(os.path.join(kdir, "rsa", f"selfsign_{key['bits']}_v3.der.crt"))
                 cb.set_root_key_hash(key.get("slot", 0), cert.public_key_hash())
@@ -611,7 +615,8 @@ class Run:
                     self.supplied_roots.append((i, certs[i]))
                 cb.add_certificate(certs[key["used"]])
                 pk = os.path.join(kdir, f"k{key['used']}_cert0_2048.pem")
-            img.cert_block = cb
+            if not (p.get("attach_early") and p["version"] == "2.1"):
+                img.cert_block = cb
             img.signature_provider = S.PlainFileSP(pk)
             # the device is provisioned with the hash of the table *as supplied*: each root key hash in the slot it was given
             table = bytearray(128)
@@ -1149,6 +1154,8 @@ def gen_plan(family: str, i: int, rng: random.Random, tier: str, _depth: int = 0
         "version": version, "signed": signed, "key": key, "kek_seed": rng.randrange(1 << 20), "adv": adv, "pv": pv, "cv": pv if same_ver else gen_ver(rng),
         "build": rng.choice([0, 1, 0xFFFF, rng.randrange(1 << 32)]), "sha": rng.random() < 0.5, "sections": sections, "t0_us": rng.choice([0, rng.randrange(10**12)]), "ops": [],
     }
+    if rng.random() < 0.3:
+        plan["attach_early"] = True
     if rng.random() < 0.25:
         plan["tz"] = rng.choice(["XXX-5:30", "PST8", "CET-1", "NPT-5:45", "XYZ+9:30"])
     if nsec >= 2 and version == "2.1" and rng.random() < 0.12:  # (SB2.0 refuses a second section with the same identifier)
